@@ -141,6 +141,17 @@ def check(case, ctx):
                     pos_ = [m.dims.index(d_) for d_ in sub]
                     vclasses.add(('flatten', nd, n, 'inorder' if pos_ == sorted(pos_) else 'reordered',
                                   'contiguous' if max(pos_) - min(pos_) == n - 1 else 'gaps', ins, form, sp["regime"]))
+                    if n > 1 and rng.random() < 0.3:
+                        # the same grouping has been asked for before, and that earlier result's grouped axis renamed / annotated in place
+                        try:
+                            first_ = fn()
+                            g_ = [ax_ for ax_ in first_.axes if ',' in ax_.name][0]
+                            g_.attrs['note'] = 'cells of the first result'
+                            g_.name = 'cell9'
+                            label = label + " (asked a second time; the first result's grouped axis was renamed 'cell9' in place)"
+                            ctx.outcomes['flatten-asked-twice'] += 1
+                        except Exception:
+                            pass
                     res, exc = ctx.call(label, fn, operands=(a,), meta='carry')
                     ctx.outcomes['flatten-variants'] += 1
                     if exc is not None:
@@ -154,11 +165,13 @@ def check(case, ctx):
                     # unflatten restores the member axes; coordinates preserved - also when the grouped array has been copied,
                     # indexed along another dimension or passed through newaxis / squeeze in between (it still is the same
                     # grouped array: same dims, labels and values)
-                    mid = rng.choice([None, None, 'copy', 'deepcopy', 'index-other', 'newaxis-squeeze', 'fullslice', 'pickle'])
+                    mid = rng.choice([None, None, 'copy', 'deepcopy', 'index-other', 'newaxis-squeeze', 'fullslice', 'pickle', 'take_axis-other', 'reindex-other', 'arith-self'])
                     gname_ = ",".join(esub)
                     others_ = [d_ for d_ in res.dims if d_ != gname_]
-                    if mid == 'index-other' and not others_:
+                    if mid in ('index-other', 'take_axis-other', 'reindex-other') and not others_:
                         mid = 'copy'
+                    if mid == 'arith-self' and (res.values.dtype.kind not in 'iuf' or (res.values.dtype.kind == 'f' and np.isinf(res.values).any())):
+                        mid = 'deepcopy'
                     if mid is not None:
                         import copy as _copy
                         import pickle as _pickle
@@ -173,6 +186,15 @@ def check(case, ctx):
                                 res = res[:]
                             elif mid == 'newaxis-squeeze':
                                 res = res.newaxis('nq', pos=rng.randint(0, res.ndim)).squeeze('nq')
+                            elif mid == 'take_axis-other':
+                                od = rng.choice(others_)
+                                res = res.take_axis(list(range(res.axes[od].size)), axis=od, indexing='position')
+                            elif mid == 'reindex-other':
+                                od = rng.choice(others_)
+                                res = res.reindex_axis(res.axes[od].values.copy(), axis=od)
+                            elif mid == 'arith-self':
+                                res = res + (res - res)          # array-with-array arithmetic (the axes of both operands are merged one by one)
+                                res.attrs.update(monitors.sentinel_attrs())
                             else:
                                 od = rng.choice(others_)
                                 res = res.take({od: res.axes[od].values.tolist()})
@@ -181,7 +203,7 @@ def check(case, ctx):
                             ctx.v(ID, "unflatten:mid-step-raised", "%s on the result of %s raised %s: %s" % (mid, label, type(mexc).__name__, str(mexc)[:120]))
                             continue
                         label = label + " then " + mid
-                    u, uexc = ctx.call("(%s).unflatten()" % label, lambda res=res: res.unflatten(), operands=(res, a), meta='carry')
+                    u, uexc = ctx.call("(%s).unflatten()" % label, lambda res=res: res.unflatten(), operands=(res, a), meta='carry', ambient=True)
                     ctx.outcomes['unflatten-roundtrips'] += 1
                     if uexc is not None:
                         ctx.v(ID, "unflatten:raised:" + type(uexc).__name__, "unflatten after %s raised %s: %s" % (label, type(uexc).__name__, str(uexc)[:150]))
@@ -206,12 +228,12 @@ def check(case, ctx):
                         ctx.v(ID, "unflatten:member-axis-state", "unflatten after %s: axis %r came back with (attrs, tol) = %r, the original has %r" % (
                             label, lost[0][0], (dict(u.axes[lost[0][0]].attrs), u.axes[lost[0][0]].tol), (dict(a.axes[lost[0][0]].attrs), a.axes[lost[0][0]].tol)))
         # flatten() of everything, and unflatten(axis=...) by name / position
-        res, exc = ctx.call("a.flatten()" + base, lambda: a.flatten(), operands=(a,), meta='carry')
+        res, exc = ctx.call("a.flatten()" + base, lambda: a.flatten(), operands=(a,), meta='carry', ambient=True)
         if exc is not None or not common.is_da(res):
             ctx.v(ID, "flatten-all:raised", "a.flatten()%s raised %r" % (base, exc))
         elif check_flat(ctx, "a.flatten()" + base, res, m, list(m.dims), 0, "flatten-all"):
             for ax in (0, ",".join(m.dims)):
-                u, uexc = ctx.call("a.flatten().unflatten(axis=%r)" % (ax,) + base, lambda ax=ax: res.unflatten(axis=ax), operands=(res,), meta='carry')
+                u, uexc = ctx.call("a.flatten().unflatten(axis=%r)" % (ax,) + base, lambda ax=ax: res.unflatten(axis=ax), operands=(res,), meta='carry', ambient=True)
                 if uexc is not None:
                     ctx.v(ID, "unflatten:raised:" + type(uexc).__name__, "a.flatten().unflatten(axis=%r)%s raised %s" % (ax, base, uexc))
                 else:
@@ -239,7 +261,7 @@ def check(case, ctx):
             variadic = rng.random() < 0.5
             label = "a.reshape(%s%r)" % ('*' if variadic else '', tgt) + base
             fn = (lambda tgt=tgt: a.reshape(*tgt)) if variadic else (lambda tgt=tgt: a.reshape(tgt))
-            res, exc = ctx.call(label, fn, operands=(a,), meta='carry' if tuple(tgt) != tuple(m.dims) else None)
+            res, exc = ctx.call(label, fn, operands=(a,), meta='carry' if tuple(tgt) != tuple(m.dims) else None, ambient=True)
             ctx.outcomes['reshape-targets'] += 1
             if exc is not None:
                 ctx.v(ID, "reshape:raised:" + type(exc).__name__, "%s raised %s: %s" % (label, type(exc).__name__, str(exc)[:150]))
@@ -252,7 +274,7 @@ def check(case, ctx):
             if list(res.dims) != tgt:
                 ctx.v(ID, "reshape:dims", "%s: dims %r, expected %r" % (label, res.dims, tuple(tgt)))
                 continue
-            u, uexc = ctx.call("(%s).unflatten()" % label, lambda res=res: res.unflatten(), operands=(res,))
+            u, uexc = ctx.call("(%s).unflatten()" % label, lambda res=res: res.unflatten(), operands=(res,), ambient=True)
             if uexc is not None:
                 ctx.v(ID, "reshape:unflatten-raised", "unflatten after %s raised %s: %s" % (label, type(uexc).__name__, str(uexc)[:150]))
                 continue
@@ -293,8 +315,8 @@ def check(case, ctx):
             a.values[...] = v_
         kw = {"skipna": True} if skipna else {}
         label = "a.%s(axis=%r%s)" % (f, tuple(sub), ", skipna=True" if skipna else "") + base
-        r1, e1 = ctx.call(label, lambda: getattr(a, f)(axis=tuple(sub), **kw), operands=(a,))
-        r2, e2 = ctx.call("a.flatten(%r, insert=0).%s(axis=0)" % (tuple(sub), f) + base, lambda: getattr(a.flatten(tuple(sub), insert=0), f)(axis=0, **kw), operands=(a,))
+        r1, e1 = ctx.call(label, lambda: getattr(a, f)(axis=tuple(sub), **kw), operands=(a,), ambient=True)
+        r2, e2 = ctx.call("a.flatten(%r, insert=0).%s(axis=0)" % (tuple(sub), f) + base, lambda: getattr(a.flatten(tuple(sub), insert=0), f)(axis=0, **kw), operands=(a,), ambient=True)
         with np.errstate(all='ignore'), __import__('warnings').catch_warnings():
             __import__('warnings').simplefilter('ignore')
             e = getattr(np, ('nan' if skipna else '') + f)(v_, axis=tuple(m.dims.index(d) for d in sub))
@@ -309,8 +331,8 @@ def check(case, ctx):
         f = rng.choice(['argmax', 'argmin'])
         a.values[...] = m.values
         label = "a.%s(axis=%r)" % (f, tuple(sub)) + base
-        r1, e1 = ctx.call(label, lambda: getattr(a, f)(axis=tuple(sub)), operands=(a,))
-        r2, e2 = ctx.call("a.flatten(%r, insert=0).%s(axis=0)" % (tuple(sub), f) + base, lambda: getattr(a.flatten(tuple(sub), insert=0), f)(axis=0), operands=(a,))
+        r1, e1 = ctx.call(label, lambda: getattr(a, f)(axis=tuple(sub)), operands=(a,), ambient=True)
+        r2, e2 = ctx.call("a.flatten(%r, insert=0).%s(axis=0)" % (tuple(sub), f) + base, lambda: getattr(a.flatten(tuple(sub), insert=0), f)(axis=0), operands=(a,), ambient=True)
         ctx.outcomes['tuple-arg-extrema'] += 1
         if (e1 is None) != (e2 is None):
             ctx.v(ID, "tuple-arg:exc-parity", "%s: %r, over the flattened group: %r" % (label, e1, e2))
